@@ -762,10 +762,13 @@ func audioSplitRule(c *Ctx, fnName string) int {
 				fail(total, "at "+p.Position(call.Pos())+" the destination and the source window may differ in length: "+d.Describe(lin.LE(ld, ls)))
 			}
 		case "append":
-			if f != fn || len(call.Call.Args) != 2 || !isFragList(call.Call.Args[0].Type()) {
+			if len(call.Call.Args) != 2 || !isFragList(call.Call.Args[0].Type()) {
 				return
 			}
 			m := d.Int(mtu)
+			if f != fn {
+				m = d.EntryInt(mtu) // the split lives in a helper: mtu is the entry's parameter
+			}
 			if m == nil {
 				return
 			}
